@@ -1118,6 +1118,15 @@ def randn(*size, dtype=None, **kw):
 # ------------------------------------------------------------------------------------------ functions
 def split(t, split_size_or_sections, dim=0):
     n = t.a.shape[dim]
+    if isinstance(split_size_or_sections, SymInt):
+        # concretise a symbolic chunk size against the (concrete) dimension: 1..n-1, or ">= n"
+        ss = split_size_or_sections
+        for k in range(1, n):
+            if ss == k:
+                return split(t, k, dim)
+        if ss >= _max(n, 1):
+            return split(t, _max(n, 1), dim)
+        raise RuntimeError("split expects split_size be non-negative")
     if isinstance(split_size_or_sections, (_int,)):
         ss = split_size_or_sections
         if ss < 0 or (ss == 0 and n != 0):
